@@ -88,9 +88,23 @@ class SmallEval:
         env = Scope(None, dict(zip(names, args)))
         self.entered[id(fn)] = fn
         try:
-            return self.ev(fn["body"], env)
+            v = self.ev(fn["body"], env)
         except _Return as r:
             return r.v
+        if "Result" in str(fn["sig"].get("ret", "")):
+            v = self._collected(v)
+        return v
+
+    @staticmethod
+    def _collected(v):
+        """a list of Results where the types demand a Result (`?` applied to it, or the value a Result-returning function ends with) was
+        collected into `Result<Vec<_>, _>`: the first error, else the list of the payloads"""
+        if isinstance(v, tuple) and len(v) == 2 and v[0] == "list" and all(isinstance(x, tuple) and len(x) == 2 and x[0] in ("Ok", "Err") for x in v[1]):
+            for x in v[1]:
+                if x[0] == "Err":
+                    return x
+            return ("Ok", ("list", [x[1] for x in v[1]]))
+        return v
 
     # ---- expressions ----
     def ev(self, e, env):
@@ -204,7 +218,7 @@ class SmallEval:
         if k == "break":
             raise _Break()
         if k == "try":
-            v = self.ev(e["e"], env)
+            v = self._collected(self.ev(e["e"], env))
             if isinstance(v, tuple) and v and v[0] == "Err":
                 raise _Return(v)
             if isinstance(v, tuple) and v and v[0] == "Ok":
@@ -214,6 +228,14 @@ class SmallEval:
             if isinstance(v, tuple) and v and v[0] == "Some":
                 return v[1]
             raise NoEval("`?` on a value that is neither Result nor Option")
+        if k == "binary" and e["op"] in ("+=", "-=", "*="):
+            cur, rhs = self.ev(e["l"], env), self.ev(e["r"], env)
+            if not (isinstance(cur, int) and isinstance(rhs, int)) or isinstance(cur, bool) or isinstance(rhs, bool):
+                raise NoEval(f"`{e['op']}` on values that are not numbers")
+            val = cur + rhs if e["op"] == "+=" else (cur - rhs if e["op"] == "-=" else cur * rhs)
+            return self.ev({"k": "assign", "l": e["l"], "r": {"k": "__value__", "v": val}}, env)
+        if k == "__value__":
+            return e["v"]
         if k == "assign":
             val = self.ev(e["r"], env)
             tgt = strip(e["l"])
